@@ -30,6 +30,25 @@ var commonAssumptions = []string{
 func allChecks() []CheckSpec {
 	return []CheckSpec{
 		{
+			ID: "C09",
+			Harnesses: []HarnessSpec{
+				{Fn: "verifC09Srflx", Lemma: "the goroutine body of gatherCandidatesSrflx (listen, STUN exchange, candidate creation, addCandidate) on a fake net: on every path each socket it opened is closed or adopted by a started candidate, and candidate removal closes adopted sockets exactly once",
+					Bounds: "one STUN URL, UDP4; faults: listen failure, reply = valid / read error / garbage / no address, gathering cancelled or agent closed before or during the exchange", MustReach: []string{"cancelled-during-exchange", "closed-during-exchange", "adopted", "released", "done"},
+					Cfg: func(c *HarnessCfg, tier int) { c.GoPolicy = "queue"; c.GoRunMatch = "gatherCandidatesSrflx$1" }},
+				{Fn: "verifC09RelayCandidates", Lemma: "addRelayCandidates/createRelayCandidate: when no candidate adopts the relay allocation it is closed and the TURN client + local socket (onClose) are released exactly once; adopted resources stay open and are released exactly once by candidate removal",
+					Bounds: "address rewrite none / replace-with-nothing / append one address; context live or cancelled", MustReach: []string{"rewrite-drops", "cancelled", "adopted", "not-adopted", "done"},
+					Cfg: func(c *HarnessCfg, tier int) { c.GoPolicy = "queue" }},
+				{Fn: "verifC09RelayBody", Lemma: "the goroutine body of gatherCandidatesRelay (TURN over UDP) with a fake net and TURN client factory: local socket, client and allocation are released exactly once on every failure (listen, factory, Listen, Allocate, location-tracked address, cancelled context) and adopted otherwise",
+					Bounds: "one TURN/UDP URL; 6 fault kinds x context live/cancelled", MustReach: []string{"adopted", "released", "no-socket", "done"},
+					Cfg: func(c *HarnessCfg, tier int) { c.GoPolicy = "queue"; c.GoRunMatch = "gatherCandidatesRelay$1" }},
+			},
+			Assumptions: append([]string{
+				"sequential fault paths only: the gatherer goroutine bodies run to completion when spawned; the candidate receive loop and close watchers are scheduled cooperatively (a blocked goroutine yields to the others)",
+				"sockets, transport.Net and the TURN client are recording fakes with a ghost close counter",
+			}, commonAssumptions...),
+			Outside: "WHEN things happen under real concurrency (Restart/Close racing an in-flight exchange), the watcher goroutine inside gatherForURL, DTLS/TLS/TCP TURN branches, the 'open sockets = 0 after Close' tally (needs real goroutines); the host gatherer's socket accounting is checked under C18(d) and duplicate-candidate closing under C06",
+		},
+		{
 			ID: "C18",
 			Harnesses: []HarnessSpec{
 				{Fn: "verifC18IPv6Filter", Lemma: "isSupportedIPv6Partial and shouldFilterLocationTrackedIP equal independent bit-pattern predicates (IPv4-compatible ::/96, site-local fec0::/10; link-local fe80::/10, ff?2::/16)",
